@@ -128,6 +128,10 @@ func ensureCanUseORConstraint(node schema.Node) {
 	if ssl.HasUserTypes() {
 		panic(errors.ErrInvalidChildNodeTogetherWithOrRule)
 	}
+
+	// An "or" rule made of built-in types only is just as foreign to a type
+	// reference: the referenced types would be silently ignored.
+	panic(errors.ErrCannotSpecifyOtherRulesWithTypeReference)
 }
 
 func checkBranchNodeWithOrConstraint(schemaNode schema.Node, jsonNode schema.BranchNode) {
